@@ -135,6 +135,17 @@ def hazards():
                            (100000, "3h"), (1000000, "1d"), (5, "1s")):
         hz.append(("rate limit %s per %s" % (number.s if isinstance(number, Raw) else number, period), "either", rl(number, period)))
 
+    # several limits on one endpoint with a zero among them, in every position and relation of periods
+    def rls(lims):
+        def f(cfg, sc):
+            cfg["rate-limit"] = [{"name": "z%d" % k, "number": n, "period": p} for k, (n, p) in enumerate(lims)]
+            cfg["endpoint"][0]["rate_limits"] = ["z%d" % k for k in range(len(lims))]
+            return cfg
+        return f
+    for lims in ([(2, "1s"), (0, "1h")], [(0, "1h"), (2, "1s")], [(5, "10s"), (0, "10s")], [(0, "10s"), (5, "10s")], [(0, "1s"), (7, "1m"), (9, "1h")],
+                 [(7, "1s"), (0, "1m"), (9, "1h")], [(7, "1s"), (9, "1m"), (0, "1h")], [(0, "2s"), (0, "3s")], [(3, "60s"), (4, "1m")]):
+        hz.append(("rate limits %s" % ", ".join("%d per %s" % l for l in lims), "either", rls(lims)))
+
     # powers of two and their neighbours (truncating casts, sign bits) with periods that take the dividing branch of the limiter
     for k in (8, 16, 31, 32, 33, 63, 64):
         for d in (-1, 0, 1):
